@@ -84,6 +84,10 @@ func resultValue(rs []Value) Value {
 
 func (x *Exec) callStatic(f *Frame, st *State, ins ssa.Instruction, fn *ssa.Function, clo *Closure, args []Value) (Value, bool) {
 	pcBefore := st.PC
+	var preSt *State
+	if f.top && clo == nil && x.OnTopReturn != nil {
+		preSt = st.clone()
+	}
 	v, ok := x.callStatic1(f, st, ins, fn, clo, args)
 	if ok && f.top && clo == nil {
 		// ghost call history of the function under verification
@@ -97,6 +101,9 @@ func (x *Exec) callStatic(f *Frame, st *State, ins ssa.Instruction, fn *ssa.Func
 		}
 		rec.n++
 		rec.pc = pcBefore
+		rec.fn = fn
+		rec.args = args
+		rec.pre = preSt
 		rec.results = nil
 		rec.types = nil
 		res := fn.Signature.Results()
